@@ -156,6 +156,24 @@ func (e *Engine) havocLoop(st *State, fr *Frame, h *loopHdr, spec *LoopSpec) {
 		desigs = e.defaultLoopModifies(fr, h)
 	}
 	env := e.frameEnv(st, fr)
+	if len(desigs) == 1 && desigs[0] == "*" && len(spec.Modifies) == 0 {
+		// default frame: everything the program can write; ghost state only if the loop can reach an operation on it
+		ghost := false
+		for b := range h.blocks {
+			for _, in := range b.Instrs {
+				switch x := in.(type) {
+				case *ssa.Call:
+					ghost = ghost || e.callMayTouchGhost(&x.Call, map[*ssa.Function]bool{})
+				case *ssa.Defer:
+					ghost = true
+				case *ssa.Go:
+					ghost = ghost || e.callMayTouchGhost(&x.Call, map[*ssa.Function]bool{})
+				}
+			}
+		}
+		e.havocAllG(st, ghost)
+		return
+	}
 	e.havocDesignators(st, env, desigs, "loop")
 	st.bumpWatermark()
 }
